@@ -1,17 +1,20 @@
 #!/bin/bash
-# tools/seedcheck.sh <ID> <patch> [tier]: apply a seeded change to /repo, run the property's check, undo it.
+# tools/seedcheck.sh <ID> <patch> [tier]: run the property's check against a seeded change.
+# The change is applied to a scratch worktree of /repo HEAD (GOSYM_REPO points the engine at it), so /repo itself is
+# never touched; equivalent to `git -C /repo apply <patch>; /verif/check <ID> <tier>; git -C /repo checkout -- .`.
 ID=$1; PATCH=$2; TIER=${3:-quick}
-cd /repo || exit 3
-if [ -n "$(git status --porcelain)" ]; then echo "repo dirty"; exit 3; fi
+WT=${SEED_WT:-/tmp/detect-wt}
+if [ ! -d $WT ]; then git -C /repo worktree add -q --detach $WT HEAD || exit 3; fi
+cd $WT || exit 3
+git checkout -q --detach $(git -C /repo rev-parse HEAD) 2>/dev/null
+git checkout -q -- . ; git clean -qfd
 git apply "$PATCH" || { echo "SEED patch does not apply: $PATCH"; exit 3; }
 mkdir -p /tmp/seedev
-cp /verif/evidence/$ID.json /tmp/seedev/$ID.keep 2>/dev/null
 t0=$(date +%s)
-/verif/check $ID $TIER > /tmp/seedev/$ID.out 2>/tmp/seedev/$ID.err; rc=$?
+export PATH=/opt/veriftools/go1.26.8/bin:$PATH GOTOOLCHAIN=local GOFLAGS=-mod=mod GOPROXY=off GOSUMDB=off
+GOSYM_REPO=$WT /verif/bin/gosym run --spec /verif/specs/$ID.json --tier $TIER --root /verif --seed 0 --evidence /tmp/seedev/$ID.seeded.json > /tmp/seedev/$ID.out 2>/tmp/seedev/$ID.err; rc=$?
 t1=$(date +%s)
-cp /verif/evidence/$ID.json /tmp/seedev/$ID.seeded.json 2>/dev/null
-cp /tmp/seedev/$ID.keep /verif/evidence/$ID.json 2>/dev/null
-git checkout -- . 
+git checkout -q -- .
 echo "SEED $ID $(basename $(dirname $PATCH))/$(basename $PATCH) tier=$TIER exit=$rc time=$((t1-t0))s"
 grep -E "^(VIOLATION|INCONCLUSIVE|KNOWN|OK)" /tmp/seedev/$ID.out | head -5
 grep -E "violation .*assertion" /tmp/seedev/$ID.err | sed 's/inputs=.*//' | sort | uniq -c | head -8
